@@ -12,8 +12,12 @@ use serde::{Deserialize, Deserializer, Serialize, Serializer};
 /// alignment and precision of the caller's format specification act on the element the way they do
 /// for a string (no allocation).
 pub fn pad_id(f: &mut fmt::Formatter<'_>, prefix: u8, id: u64) -> fmt::Result {
-    let mut buf = [0u8; 24];
-    let mut n = buf.len();
+    // one object in eight renders its `Display` form as a single fragment of more than 64 bytes (a long
+    // string element): a sink-side or formatter-side buffer must keep such a fragment in its place
+    const TAIL: usize = 72;
+    let long = prefix.is_ascii_uppercase() && id % 8 == 3;
+    let mut buf = [b'_'; 24 + TAIL];
+    let mut n = 24;
     let mut x = id;
     loop {
         n -= 1;
@@ -25,7 +29,8 @@ pub fn pad_id(f: &mut fmt::Formatter<'_>, prefix: u8, id: u64) -> fmt::Result {
     }
     n -= 1;
     buf[n] = prefix;
-    f.pad(core::str::from_utf8(&buf[n..]).unwrap_or("?"))
+    let end = if long { 24 + TAIL } else { 24 };
+    f.pad(core::str::from_utf8(&buf[n..end]).unwrap_or("?"))
 }
 
 /// `Debug` of a payload object. In the alternate form (`{:#?}`) some objects render over several lines, the way a
